@@ -227,6 +227,12 @@ CONFIG = {0: ("cfg.output_format", (0, 1, 2, 3, 4)), 1: ("cfg.loop_order", (0, 1
           4: ("cfg.verbose_output", (0, 1)), 5: ("cfg.calculate_uncertainty", (0, 1)),
           6: ("cfg.running_couplings", (0, 1))}
 CONFIG_DEFAULT_FORMAT = {"slha": 4, "gm2calc": 1, "thdm": 4}
+# README table "Defaul value": entry -> default (entry 0 depends on the input format)
+CONFIG_DEFAULT = {1: 2, 2: 1, 3: 0, 4: 0, 5: 0, 6: 1}
+
+
+def config_default(fmt, key):
+    return CONFIG_DEFAULT_FORMAT[fmt] if key == 0 else CONFIG_DEFAULT[key]
 for _fmt in READ:
     for _k, (_n, _al) in CONFIG.items():
         _d(DOC, _fmt, "GM2CALCCONFIG", _k, _n, "int")
